@@ -36,7 +36,6 @@ type SencBox struct {
 	rawData          []byte                 // intermediate storage when reading
 	IVs              []InitializationVector // 8 or 16 bytes if present
 	SubSamples       [][]SubSamplePattern
-	readBoxSize      uint64 // As read from box header
 }
 
 // CreateSencBox - create an empty SencBox
@@ -136,7 +135,6 @@ func DecodeSenc(hdr BoxHeader, startPos uint64, r io.Reader) (Box, error) {
 		StartPos:         startPos,
 		SampleCount:      sampleCount,
 		readButNotParsed: true,
-		readBoxSize:      hdr.Size,
 	}
 
 	if flags&UseSubSampleEncryption != 0 && (len(senc.rawData) < 2*int(sampleCount)) {
@@ -146,10 +144,6 @@ func DecodeSenc(hdr BoxHeader, startPos uint64, r io.Reader) (Box, error) {
 
 	if senc.SampleCount == 0 || len(senc.rawData) == 0 {
 		senc.readButNotParsed = false
-		if senc.SampleCount == 0 {
-			// No sample data will be written, so the size must be calculated and not taken from the header
-			senc.readBoxSize = 0
-		}
 		return &senc, nil
 	}
 	return &senc, nil
@@ -181,15 +175,10 @@ func DecodeSencSR(hdr BoxHeader, startPos uint64, sr bits.SliceReader) (Box, err
 		StartPos:         startPos,
 		SampleCount:      sampleCount,
 		readButNotParsed: true,
-		readBoxSize:      hdr.Size,
 	}
 
 	if senc.SampleCount == 0 || len(senc.rawData) == 0 {
 		senc.readButNotParsed = false
-		if senc.SampleCount == 0 {
-			// No sample data will be written, so the size must be calculated and not taken from the header
-			senc.readBoxSize = 0
-		}
 		return &senc, sr.AccError()
 	}
 	return &senc, sr.AccError()
@@ -315,8 +304,10 @@ func (s *SencBox) setSubSamplesUsedFlag() {
 
 // Size - box-specific type
 func (s *SencBox) Size() uint64 {
-	if s.readBoxSize > 0 {
-		return s.readBoxSize
+	if s.readButNotParsed {
+		// Header, version, flags, and sample count (8 + 8 bytes) followed by the raw data, as written by EncodeSW.
+		// For a box read with an 8-byte header this is the size read from the header.
+		return uint64(boxHeaderSize + 8 + len(s.rawData))
 	}
 	return s.calcSize()
 }
